@@ -51,56 +51,46 @@ def d1(ctx, prog):
             return True
         return False
     key = f'{f.key}::bit provenance'
+    key_ = f'{f.key}::interrupt'
     try:
-        it = bitprov.Interp(f, consts={'ROUND_KEY_BITS_INDEXES': got}, skip=skip, env={'interrupt_after_round': 15})
-        it.params = {'key'}
-        it.run()
-        arr = it.arrays.get('output_key')
-        if arr is None:
-            raise bitprov.Abort('output array not found')
         bad = []
         n = 0
-        for r in range(16):
-            for w in range(8):
-                col = r * 8 + w
-                if col not in arr:
-                    raise bitprov.Abort(f'round key word {col} never written')
-                word = arr[col]
-                for j in range(6):
-                    n += 1
-                    src = word.get(5 - j)
-                    exp = want[r][w * 6 + j]
-                    gotpos = bitprov.fips_pos(src[2], src[3], 8) if isinstance(src, tuple) else src
-                    if gotpos != exp:
-                        bad.append((r, w, j, gotpos, exp))
-                if word.get(6) != 0 or word.get(7) != 0:
-                    bad.append((r, w, 'high bits', 'set', 0))
+        stops = []
+        for target in range(15, -1, -1):
+            it = bitprov.Interp(f, consts={'ROUND_KEY_BITS_INDEXES': got}, skip=skip, env={'interrupt_after_round': target}, input_cols=8)
+            it.params = {'key'}
+            it.run()
+            arr = it.arrays.get('output_key')
+            if arr is None:
+                raise bitprov.Abort('output array not found')
+            written = sorted(arr)
+            if written != list(range(8 * (target + 1))):
+                stops.append((target, len(written) // 8 if written == list(range(len(written))) else written[:3]))
+            for r in range(target + 1):
+                for w in range(8):
+                    col = r * 8 + w
+                    if col not in arr:
+                        continue          # reported as an interruption mismatch (the set of written words)
+                    word = arr[col]
+                    for j in range(6):
+                        n += target == 15
+                        src = word.get(5 - j)
+                        exp = want[r][w * 6 + j]
+                        gotpos = bitprov.fips_pos(src[2], src[3], 8) if isinstance(src, tuple) else src
+                        if gotpos != exp:
+                            bad.append((r, w, j, gotpos, exp, target))
+                    if word.get(6) != 0 or word.get(7) != 0:
+                        bad.append((r, w, 'high bits', 'set', 0, target))
         if bad:
-            r, w, j, g, e = bad[0]
-            ctx.fail('C10-D1', key, f'round {r + 1}, word {w}, bit {j}: comes from key bit {g}; PC-2 o rot o PC-1 selects key bit {e} ({len(bad)} of {n} bits differ)', f.where())
+            r, w, j, g, e, target = bad[0]
+            ctx.fail('C10-D1', key, f'round {r + 1}, word {w}, bit {j}' + (f' (interrupt_after_round={target})' if target != 15 else '') +
+                     f': comes from key bit {g}; PC-2 o rot o PC-1 selects key bit {e} ({len(bad)} bits differ)', f.where())
         else:
-            ctx.ok('C10-D1', key, f'all {n} round-key bits (16 rounds x 48) come from the key bit PC-2 o rot o PC-1 selects - for every key', f.where(), bits=n)
+            ctx.ok('C10-D1', key, f'all {n} round-key bits (16 rounds x 48) come from the key bit PC-2 o rot o PC-1 selects - for every key, and for every interruption point the rounds kept', f.where(), bits=n)
+        ctx.check(not stops, 'C10-D1', key_, f'with interrupt_after_round = {stops[0][0] if stops else ""} the schedule writes {stops[0][1] if stops else ""} rounds, not rounds 0..{stops[0][0] if stops else ""} '
+                  f'({len(stops)} of 16 interruption points differ)', 'for every interrupt_after_round t in 0..15 exactly the round keys 0..t are written', f.where())
     except bitprov.Abort as e:
         ctx.undecided('C10-D1', key, f'provenance analysis aborted: {e}', f.where())
-    # interruption and width
-    brk = [n for n in ast.walk(f.node) if isinstance(n, ast.If) and any(isinstance(b, ast.Break) for b in n.body)]
-    # the break must come after the words of the round were written (last statement of the round loop) and fire first at r = target
-    loops = [l for l in ast.walk(f.node) if isinstance(l, ast.For) and brk and brk[0] in l.body]
-    key_ = f'{f.key}::interrupt'
-    if len(brk) == 1 and len(loops) == 1 and isinstance(loops[0].target, ast.Name):
-        from .c15 import ceval, Undecidable
-        rv = loops[0].target.id
-        try:
-            first_true = {}
-            for t_ in range(16):
-                first_true[t_] = next((r_ for r_ in range(16) if ceval(brk[0].test, {rv: r_, 'interrupt_after_round': t_})), None)
-            good_ = all(first_true[t_] == t_ for t_ in range(16)) and loops[0].body[-1] is brk[0]
-            ctx.check(good_, 'C10-D1', key_, f'the round loop does not stop right after writing round `interrupt_after_round` (first stop per target: {first_true}, break last in the loop: {loops[0].body[-1] is brk[0]})',
-                      'stops after round interrupt_after_round (inclusive)', f.where())
-        except Undecidable as e_:
-            ctx.undecided('C10-D1', key_, f'interruption test not evaluable: {e_}', f.where())
-    else:
-        ctx.undecided('C10-D1', key_, 'interruption of the round loop not recognised', f.where())
     allocs = [s for s in ast.walk(f.node) if isinstance(s, ast.Assign) and norm(s.targets[0]) == 'output_key']
     ok = len(allocs) == 1 and isinstance(allocs[0].value, ast.Call) and isinstance(allocs[0].value.args[0], ast.Tuple) and \
         astutil.affine(allocs[0].value.args[0].elts[1]) == {'interrupt_after_round': 8, '': 8}
